@@ -254,6 +254,8 @@ pub fn iso_case(args: &Args, idx: u64) -> CaseOut {
         use passkey_types::webauthn::{AuthenticationExtensionsClientInputs, AuthenticationExtensionsPrfInputs, AuthenticationExtensionsPrfValues, UserVerificationRequirement as Uvr};
         let mut r2 = Rng::derive(args.seed, "c08client", idx);
         let rig2 = Rig::ok(disc);
+        // half of the users are verified only when verification is asked for
+        rig2.uv.set_verifies_only_when_asked(r2.bool());
         let hmac = *r2.pick(&[HmacCfg::UvOnly, HmacCfg::WithoutUv, HmacCfg::None]);
         let id = vec![0x66u8; 16];
         let start = *r2.pick(&[0u32, 1, 9000, 0x7FFF_FFFF, 0xFFFF_FFF0]);
